@@ -27,7 +27,27 @@ TABLE = {
 }
 
 
+class _ArrMeth:
+    def __init__(self, vals, name):
+        self.vals, self.name = vals, name
+
+
 class StatQ(FSInterp):
+    def __init__(self, *a, **kw):
+        super().__init__(*a, **kw)
+        self.root.lists_are_arrays = True
+
+    def get_attr(self, base, attr, node):
+        # the value list after np.asarray(...): reductions as methods
+        if isinstance(base, tuple) and attr in ("mean", "sum", "std", "var", "min", "max") and all(isinstance(x, (int, float)) for x in base):
+            return _ArrMeth(base, attr)
+        return super().get_attr(base, attr, node)
+
+    def apply(self, fv, args, kwargs, node):
+        if isinstance(fv, _ArrMeth):
+            return Tagged("numpy." + fv.name, [fv.vals] + list(args), dict(kwargs))
+        return super().apply(fv, args, kwargs, node)
+
     def external_call(self, name, args, kwargs, node):
         if name in ("float", "int") and args and isinstance(args[0], Tagged):
             return args[0]
@@ -35,7 +55,7 @@ class StatQ(FSInterp):
             fn, items = args[0], args[1]
             items = list(self.iterate(items, node))
             fname = fn.name if isinstance(fn, Sym) else ""
-            if fname.endswith("operator.iadd") or fname.endswith("operator.add") or fname.endswith("operator.concat"):
+            if fname.split(".")[-1] in ("iadd", "add", "concat", "iconcat"):
                 if len(args) > 2:
                     acc = args[2]
                 elif items:
@@ -44,7 +64,7 @@ class StatQ(FSInterp):
                     return Unknown("reduce of empty")
                 for x in items:
                     if isinstance(acc, list) and isinstance(x, list):
-                        if fname.endswith("iadd"):
+                        if fname.split(".")[-1] in ("iadd", "iconcat"):
                             acc += x  # in place, like the real operator
                         else:
                             acc = acc + x
